@@ -112,6 +112,43 @@ Proof.
   cbv zeta. eexists. split; [vm_compute; reflexivity|]. repeat split; vm_compute; reflexivity.
 Qed.
 
+(* 2b. A LIVELOCK under the very hypotheses of no_hang (wf W, posreq W).  A job with two dependencies
+   on the same token, each request <= total but their sum > total (`tok(1, task); tok(1, task)` with
+   total 1): both dependencies are individually OK (1 <= available), the job becomes READY, takes the
+   first unit, fails on the second, aborts, releases, is notified, finds both OK again, ... for ever.
+   In every state of this run exactly one external event is enabled, so EVERY schedule loops; no
+   quiescent state is ever reached and no_hang is vacuously true of this run.
+   Confirmed on the real scheduler (/repo HEAD, ProcessCounterToken(1), real CommandLineJob):
+   16705 aborted starts in 15 s, job.wait() never returns; with total 2 the job is launched at once.
+   "each submitted job reaches a final state ... never hanging" is therefore FALSE for a workload
+   that satisfies wf and posreq; a termination theorem needs the extra hypothesis that the requests
+   of one job on one token sum to at most its total.                                            *)
+Definition W_twice : workload := {| w_jobs := [ mkjob [DTok 0 1; DTok 0 1] 0 false 0 ]; w_tokens := [1%nat] |}.
+Lemma posreq_W_twice : posreq W_twice.
+Proof.
+  intros j t c H. destruct j as [|j]; [simpl in H; repeat (destruct H as [H|H]; [inversion H; subst; lia|]); contradiction|].
+  unfold deps, spec in H. simpl in H. destruct j; simpl in H; contradiction.
+Qed.
+Definition proj0 (s : state) :=
+  (st (jobs s 0), pc (jobs s 0), uns (jobs s 0), cur (jobs s 0), held (jobs s 0), ev (jobs s 0), launches (jobs s 0),
+   queue s, avail s 0%nat, unfinished s).
+Example ex_livelock_same_token_twice :
+  let run n := final W_twice all_fixed (expand W_twice all_fixed (init W_twice) (XSubmit 0%nat :: repeat (XDeliver 0%nat) n)) in
+  wf W_twice = true /\ posreq W_twice /\
+  reachable W_twice (run 41%nat) /\
+  (* 41 deliveries = 20 complete aborted starts + one lock acquisition; nothing was ever launched *)
+  launches (jobs (run 41%nat) 0) = 0%nat /\ pc (jobs (run 41%nat) 0) = PExt ALockOutAbort /\
+  (* the run is periodic with period 2 (on every component of the state that the step function reads) *)
+  proj0 (run 41%nat) = proj0 (run 1%nat) /\ proj0 (run 40%nat) = proj0 (run 0%nat) /\
+  (* all 41 deliveries really happened (expand did not truncate): 1 submit + 41 deliveries + callbacks *)
+  length (filter (fun l => match l with LDeliver _ => true | _ => false end)
+                 (expand W_twice all_fixed (init W_twice) (XSubmit 0%nat :: repeat (XDeliver 0%nat) 41))) = 41%nat.
+Proof.
+  cbv zeta. split; [reflexivity|]. split; [exact posreq_W_twice|].
+  split; [apply reachable_final; vm_compute; reflexivity|].
+  repeat split; vm_compute; reflexivity.
+Qed.
+
 (* 3. `expand` (used by every witness of Sched_thm.v) silently truncates the schedule at the first
    event that is not enabled: a witness built with it may be shorter than its list of events
    suggests.  The refuted witnesses state their conclusions on the state actually reached, so
@@ -142,3 +179,4 @@ Print Assumptions ex_wait_completes_returned.
 Print Assumptions ex_returned_stable.
 Print Assumptions ex_resubmit_repaired_ends.
 Print Assumptions ex_request_above_total_hangs.
+Print Assumptions ex_livelock_same_token_twice.
